@@ -445,6 +445,11 @@ def run_job(job):
             acc.nontrivial += 1
             acc.check("wif_str", {"s": s.hex()}, chk_wif_str)
         if sh == 0:
+            from vf.classes import lookalike_substitutions
+            for _i, _cp, s in lookalike_substitutions(base, per_char=2):
+                acc.evaluations += 1
+                acc.nontrivial += 1
+                acc.check("wif_str", {"s": s.hex()}, chk_wif_str)
             for v in range(256):
                 for body in (key, key + b"\x01"):
                     s = B58.check_encode(bytes([v]) + body)
